@@ -17,7 +17,8 @@ def mc_info(prog):
                 prog.info['ports'][mc['port']]['itf']:
             fields = info['fields']
     return {'port': mc['port'], 'claim': mc['claim'], 'release': mc['release'],
-            'grant': fields.index(mc['reply'][0]), 'n_fields': len(fields), 'claim_event': claim}
+            'grant': fields.index(mc['reply'][0]), 'n_fields': len(fields), 'claim_event': claim,
+            'fields': list(fields)}
 
 
 CLIENT_POOL = ['A', 'B', 'C', 'D', 'E', 'a', 'AA', 'A1', 'client2', 'client10', 'client1', 'gui',
